@@ -51,7 +51,11 @@ pub fn parse_local_segments(local: &str) -> Vec<LocalSegment> {
         .split('.')
         .map(|part| {
             if !part.is_empty() && part.chars().all(|c| c.is_ascii_digit()) {
-                LocalSegment::new_uint(part.parse().unwrap_or(0))
+                match part.parse() {
+                    Ok(n) => LocalSegment::new_uint(n),
+                    // A numeric part beyond u32 is kept as text (without leading zeros)
+                    Err(_) => LocalSegment::Str(part.trim_start_matches('0').to_string()),
+                }
             } else {
                 LocalSegment::try_new_str(part.to_string()).unwrap()
             }
@@ -67,26 +71,35 @@ impl FromStr for PEP440 {
             .captures(s)
             .ok_or_else(|| ZervError::InvalidVersion(format!("Invalid PEP440 version: {s}")))?;
 
-        let release = captures
-            .name("release")
-            .map(|m| {
-                m.as_str()
-                    .split('.')
-                    .map(|x| x.parse().unwrap_or(0))
-                    .collect()
+        // A number that does not fit u32 is rejected rather than replaced by 0
+        let parse_number = |text: &str| -> Result<u32, ZervError> {
+            text.parse().map_err(|_| {
+                ZervError::InvalidVersion(format!("Invalid PEP440 version: {s} (number out of range)"))
             })
-            .unwrap_or_else(|| vec![0]);
+        };
+
+        let release = match captures.name("release") {
+            Some(m) => m
+                .as_str()
+                .split('.')
+                .map(parse_number)
+                .collect::<Result<Vec<u32>, ZervError>>()?,
+            None => vec![0],
+        };
 
         let mut version = PEP440::new(release);
 
         if let Some(epoch_match) = captures.name("epoch") {
-            let epoch = epoch_match.as_str().parse().unwrap_or(0);
+            let epoch = parse_number(epoch_match.as_str())?;
             version = version.with_epoch(epoch);
         }
 
         if let Some(pre_l) = captures.name("pre_l") {
             let label = PreReleaseLabel::from_str_or_alpha(pre_l.as_str());
-            let number = captures.name("pre_n").and_then(|m| m.as_str().parse().ok());
+            let number = captures
+                .name("pre_n")
+                .map(|m| parse_number(m.as_str()))
+                .transpose()?;
             version = version.with_pre_release(label, number);
         }
 
@@ -94,12 +107,16 @@ impl FromStr for PEP440 {
             let post_number = captures
                 .name("post_n1")
                 .or_else(|| captures.name("post_n2"))
-                .and_then(|m| m.as_str().parse().ok());
+                .map(|m| parse_number(m.as_str()))
+                .transpose()?;
             version = version.with_post(post_number);
         }
 
         if captures.name("dev").is_some() {
-            let dev_number = captures.name("dev_n").and_then(|m| m.as_str().parse().ok());
+            let dev_number = captures
+                .name("dev_n")
+                .map(|m| parse_number(m.as_str()))
+                .transpose()?;
             version = version.with_dev(dev_number);
         }
 
